@@ -61,8 +61,14 @@ def ktext(v):
         return "(-%s)" % s if v < 0 else "(%s)" % s
     if isinstance(v, float):
         s = repr(abs(v))
-        if "e" in s or "inf" in s or "nan" in s:
+        if "inf" in s or "nan" in s:
             raise ValueError(v)
+        if "e" in s:                      # positional spelling of the shortest repr (a Ka literal `1e-7` would be an exact fraction)
+            from decimal import Decimal
+            s = format(Decimal(s), "f")
+            if "." not in s:
+                s += ".0"
+            assert float(s) == abs(v)
         return "(-%s)" % s if v < 0 else s
     return "(-%d)" % -v if v < 0 else str(v)
 
@@ -150,6 +156,26 @@ class D:
             return exact(p[0])
         return (exact(p[0]) + exact(p[1])) / 2
 
+    def ref_pmf(self, k):
+        """independent textbook probability mass (exact Fraction; Poisson as a float through lgamma)"""
+        kd, p = self.kind, self.params
+        lo, hi = self.support()
+        if k < lo or (hi is not None and k > hi):
+            return Fraction(0)
+        if kd == "Binomial":
+            n, q = p[0], exact(p[1])
+            return math.comb(n, k) * q ** k * (1 - q) ** (n - k)
+        if kd == "Geometric":
+            q = exact(p[0])
+            return (1 - q) ** (k - 1) * q
+        if kd == "Bernoulli":
+            q = exact(p[0])
+            return q if k == 1 else 1 - q
+        if kd == "UniformInt":
+            return Fraction(1, p[1] - p[0] + 1)
+        mu = float(p[0])
+        return math.exp(k * math.log(mu) - mu - math.lgamma(k + 1))
+
     def ref_cdf(self, x):
         """independent reference distribution function (continuous)"""
         k, p = self.kind, self.params
@@ -177,6 +203,10 @@ def grid(ctx):
     for n in [1, 2, 5, 10, 23] + ([40, 60] if thorough else []):
         for p in [0, 1, F(1, 2), F(3, 10), F(1, 3), F(99, 100), 0.3, 0.75] + ([F(2, 7), 0.999, 1e-3] if thorough else []):
             g.append(D("Binomial", (n, p), True))
+    # float parameters that are tiny, next to 1, or not a multiple of 1e-6 (a "rationalised" p is a different distribution)
+    for n, p in [(2, 1e-7), (23, 7e-7), (23, 0.9999999), (5, 0.00000033)] + ([(60, 1e-9), (40, 1 - 1e-12)] if thorough else []):
+        g.append(D("Binomial", (n, p), True))
+    g.append(D("Bernoulli", (1e-7,), True))
     for mu in [1, 3, 10, 25] + ([2, 60, 100] if thorough else []):
         g.append(D("Poisson", (mu,), True))
     for p in [1, F(1, 2), F(1, 3), F(9, 10), F(1, 10), 0.25, 0.7] + ([F(1, 40), 0.05] if thorough else []):
@@ -335,6 +365,10 @@ def check(ctx):
                     if bad:
                         ctx.violation("cdf-sum:%s" % d.kind, "%s.cdf(%d)" % (d.text(), k), "sum of pmf(j), j <= %d = %r" % (k, acc),
                                       repr(c), "ka.probability.%s(%s).cdf(%d) vs sum of .pmf" % (d.kind, ", ".join(map(repr, d.params)), k))
+                    want_pm = d.ref_pmf(k)
+                    if (pm[k] != want_pm) if (exact_d and d.kind != "Poisson") else abs(float(pm[k]) - float(want_pm)) > TOL + 1e-9 * float(want_pm):
+                        ctx.violation("pmf-value:%s" % d.kind, "%s.pmf(%d)" % (d.text(), k), "the textbook mass %r" % (float(want_pm),), repr(pm[k]),
+                                      "ka.probability.%s(%s).pmf(%d)" % (d.kind, ", ".join(map(repr, d.params)), k))
                     if pm[k] < 0 or (k < lo and pm[k] != 0) or (hi is not None and k > hi and pm[k] != 0):
                         ctx.violation("pmf-support:%s" % d.kind, "%s.pmf(%d)" % (d.text(), k), "0 outside the support, >= 0 inside",
                                       repr(pm[k]), "ka.probability pmf")
@@ -534,6 +568,18 @@ def check(ctx):
             ctx.count("poisson-range:" + text, bucket="poisson-large")
             if r[0] != "ok" or not isinstance(r[1], (int, float)) or abs(float(r[1]) - exp) > TOL:
                 ctx.violation("poisson-float-range", text, "%.12g" % exp, repr(r), "ctx.real.value(%r)" % text)
+
+    # ---------------- Binomial with a float p beyond the float range of choose(n, x) (oracle only) ----------------
+    def ref_binom(n, p_, lo_, hi_):
+        q = Fraction(p_)
+        return float(sum(math.comb(n, k) * q ** k * (1 - q) ** (n - k) for k in range(lo_, hi_ + 1)))
+    for n, p_, x in [(1030, 0.5, 515), (1100, 0.999, 1099), (2000, 0.5, 1000)] + ([(5000, 0.3, 1500), (1500, 0.01, 15)] if not ctx.quick() else []):
+        for text, exp in (("P(Binomial(%d, %s) = %d)" % (n, ktext(p_), x), ref_binom(n, p_, x, x)),
+                          ("P(Binomial(%d, %s) <= %d)" % (n, ktext(p_), x), ref_binom(n, p_, 0, x))):
+            r = run(text)
+            ctx.count("binomial-range:" + text, bucket="binomial-large")
+            if r[0] != "ok" or not isinstance(r[1], (int, float)) or abs(float(r[1]) - exp) > TOL:
+                ctx.violation("binomial-float-range", text, "%.12g" % exp, repr(r), "ctx.real.value(%r)" % text)
 
     # ---------------- correspondence with the Lean model ----------------
     def agree(real, model, info):
